@@ -11,7 +11,12 @@ CVC5 = '/usr/bin/cvc5'
 QUICK_Z3_MS = 3000
 
 
+SHORT = [False]      # set by verify_combo once a kind combination has used up its budget on undecided obligations
+
+
 def timeouts():
+    if SHORT[0]:
+        return (1500, 0)        # budget of this kind combination used up: one short z3 attempt per remaining obligation
     if os.environ.get('PYVC_CANARY'):
         return (6000, 6)        # a deliberately broken body only has to be NOT proved: short budgets
     tier = os.environ.get('VERIF_TIER', 'quick')
@@ -45,14 +50,17 @@ def discharge(pc, goal, want_model=True):
         return s, s.check()
     # substring / prefix reasoning over uninterpreted string functions: cvc5 decides these in a fraction of a second
     # where z3 regularly spends its whole first budget, so it goes first there
-    if cvc5_first(pc, goal):
+    if timeouts()[1] > 0 and cvc5_first(pc, goal):
         s0 = z3.Solver()
         s0.add(*pc)
         s0.add(z3.Not(goal))
         r0 = run_cvc5(s0.to_smt2(), min(10, timeouts()[1]))
         if r0 == 'unsat':
             return {'result': 'unsat', 'backend': 'cvc5', 'time_s': time.time() - t0, 'model': None}
-    s, r = z3_try(QUICK_Z3_MS)
+    s, r = z3_try(min(QUICK_Z3_MS, timeouts()[0]))
+    if r == z3.unknown and timeouts()[1] == 0:
+        return {'result': 'unknown', 'backend': 'z3 (budget of the kind combination used up)', 'time_s': time.time() - t0,
+                'model': None, 'reason': 'budget'}
     if r == z3.unknown:
         r2 = run_cvc5(s.to_smt2(), timeouts()[1])
         dt = time.time() - t0
